@@ -287,6 +287,8 @@ package bigbuff
 //@   ensures held : x.wg != nil && boundrecv(ret) == x.wg && boundname(ret) == "(*sync.WaitGroup).Done"
 //@   ensures counted : old(x.wg) != nil ==> x.wg == old(x.wg) && wgn(x.wg) == old(wgn(x.wg)) + 1
 //@   ensures counted1 : old(x.wg) == nil ==> wgn(x.wg) == 1
+//@   # stop/done are read by the instance goroutine without the lock: (re)written only while no instance exists
+//@   write-when stop done noinstance : heldW(x.mu) && x.done == nil && spawned("(*Worker).do") == 0
 
 //@ func (*Worker).wait
 //@   props C17
@@ -295,6 +297,8 @@ package bigbuff
 //@   rely alive : x.stop != nil && x.done != nil
 //@   at-call builtin.close#0 noholders : heldW(x.mu) && x.wg == nil && arg0 == x.stop
 //@   ensures reset : x.stop == nil && x.done == nil
+//@   # ... and reset only after the instance signalled its exit (do closes done as its last action)
+//@   write-when stop done exited : heldW(x.mu) && receivedfrom(x.done)
 
 //@ func (*Worker).do
 //@   props C17
@@ -832,6 +836,8 @@ package bigbuff
 //@   ensures reply : !c.start ==> ret != nil && chancap(ret) == 1 && !closed(ret) && spawned("(*Exclusive).call$1") == 1
 //@   ensures noreply : c.start ==> ret == nil
 //@   ensures atmostone : spawned("(*Exclusive).call$1") <= 1
+//@   # item.work is read by the runner without the lock once it detached the item: written only while the item is still the map entry, under both locks
+//@   write-when exclusiveItem.work attached : heldW(e.mutex) && heldW(item.mutex) && has(e.work, c.key) && e.work[c.key] == item
 
 //@ func (*Exclusive).call$1
 //@   props C09 C10
@@ -842,7 +848,7 @@ package bigbuff
 //@   requires reply : outcome != nil ==> !closed(outcome) && chancap(outcome) == 1
 //@   # count only grows while the item is reachable, and the work map is never reset to nil
 //@   rely attached : item.count >= 1 && e.work != nil
-//@   reads-owned work : the runner reads item.work after it detached the item from the map under both locks; writers (call) prove e.work[key] == item first
+//@   reads-owned exclusiveItem.work : the runner reads item.work after it detached the item from the map under both locks; writers (call) prove e.work[key] == item first
 //@   loop 0 invariant waiting : heldW(item.mutex) && inv(item.mutex) && (outcome != nil ==> !closed(outcome) && sent(outcome) == old(sent(outcome)))
 //@   at-call dynamic#0 work : nolocks()
 //@   at-call time.Sleep#0 unlocked : nolocks()
